@@ -17,6 +17,7 @@
 //        s<id>        one request                     m<id>,<id>..  one ReqTask::Multi (mode c only)
 //        z<ms>        sleep                           y             yield to the other tasks a few times
 //        F<n>         (mode s) client writes its byte stream in fragments of n bytes from here on
+//        P<n>         requests from here on carry an extra argument of n bytes (large payloads => real back pressure)
 //        close        drop the senders (mode c only)
 //     conn spec tokens, one per connection of that node, a trailing `*` repeats the spec for ever:
 //        R            create_conn fails
@@ -29,6 +30,7 @@
 //           f<n>  write replies in fragments of n bytes (yield between fragments)
 //           b<n>  capacity of the duplex pipe in bytes (default 65536)
 //           w<k>  the k-th start_send on this connection fails with an io error (injected in the wrapper)
+//           q<k>  the sink's poll_ready reports Pending once, right after k packets were accepted, and wakes the task
 //     when a node's list is exhausted the remaining connections are healthy (`c`)
 //   fan <ids,..> err|single|multi<k>     ReqTask::Multi(..).set_result(..)
 //
@@ -119,8 +121,12 @@ fn packet_id(p: &RespPacket) -> Option<u64> {
     std::str::from_utf8(b).ok()?.parse().ok()
 }
 
-fn echo_request(id: u64) -> RespVec {
-    bulk_cmd(&[b"ECHO", id.to_string().as_bytes()])
+fn echo_request(id: u64, pad: usize) -> RespVec {
+    if pad == 0 {
+        bulk_cmd(&[b"ECHO", id.to_string().as_bytes()])
+    } else {
+        bulk_cmd(&[b"ECHO", id.to_string().as_bytes(), &vec![b'p'; pad]])
+    }
 }
 
 // ------------------------------------------------------------------------------------------------ conn specs
@@ -136,6 +142,7 @@ struct ConnSpec {
     frag: usize,
     buf: usize,
     wfail: Option<usize>,
+    qpend: Option<usize>,
 }
 
 fn parse_spec(tok: &str) -> (ConnSpec, bool) {
@@ -171,6 +178,7 @@ fn parse_spec(tok: &str) -> (ConnSpec, bool) {
             "f" => s.frag = v.parse().expect("f"),
             "b" => s.buf = v.parse().expect("b"),
             "w" => s.wfail = Some(v.parse().expect("w")),
+            "q" => s.qpend = Some(v.parse().expect("q")),
             _ => panic!("bad conn option {}", o),
         }
     }
@@ -265,6 +273,8 @@ struct WSink {
     cs: Arc<ConnState>,
     wfail: Option<usize>,
     nsend: usize,
+    qpend: Option<usize>,
+    naccepted: usize,
 }
 
 impl WSink {
@@ -283,6 +293,12 @@ impl Sink<RespPacket> for WSink {
 
     fn poll_ready(mut self: Pin<&mut Self>, cx: &mut Context<'_>) -> Poll<Result<(), BackendError>> {
         self.cs.begin_poll();
+        // scripted back pressure: report Pending once, right after `qpend` packets were accepted, and wake the task
+        if self.qpend == Some(self.naccepted) {
+            self.qpend = None;
+            cx.waker().wake_by_ref();
+            return Poll::Pending;
+        }
         let r = self.inner.as_mut().poll_ready(cx);
         self.note(r)
     }
@@ -296,6 +312,7 @@ impl Sink<RespPacket> for WSink {
         }
         match self.inner.as_mut().start_send(item) {
             Ok(()) => {
+                self.naccepted += 1;
                 self.cs.shared.ev(self.cs.node, &format!("w{}", id));
                 Ok(())
             }
@@ -401,6 +418,7 @@ impl ConnFactory for NodeConnFactory {
         Box::pin(async move {
             let (client_end, server_end) = tokio::io::duplex(spec.buf.max(1));
             let wfail = spec.wfail;
+            let qpend = spec.qpend;
             tokio::spawn(fake_backend(server_end, spec, connno));
             // the framing of backend.rs create_conn, on a duplex pipe instead of a TcpStream
             let (encoder, decoder) = new_simple_packet_codec::<RespPacket, RespPacket>();
@@ -425,6 +443,8 @@ impl ConnFactory for NodeConnFactory {
                 cs: cs.clone(),
                 wfail,
                 nsend: 0,
+                qpend,
+                naccepted: 0,
             });
             let stream: ConnStream<RespPacket> = Box::pin(RStream {
                 inner: Box::pin(reader),
@@ -570,8 +590,8 @@ fn classify_owned(res: TaskResult) -> (String, TaskResult) {
     }
 }
 
-fn new_ctx(id: u64) -> (CmdCtx, CmdReplyReceiver) {
-    let cmd = Command::new(Box::new(RespPacket::Data(echo_request(id))));
+fn new_ctx(id: u64, pad: usize) -> (CmdCtx, CmdReplyReceiver) {
+    let cmd = Command::new(Box::new(RespPacket::Data(echo_request(id, pad))));
     let (s, r) = new_command_pair(&cmd);
     (CmdCtx::new(cmd, s, 7, false), r)
 }
@@ -706,6 +726,7 @@ async fn run_ctx(
 ) -> String {
     let mut group = Some(group);
     let mut counter = 0usize;
+    let mut pad = 0usize;
     let mut receivers: Vec<(u64, CmdReplyReceiver)> = vec![];
     for tok in script.iter() {
         let tok = tok.as_str();
@@ -721,9 +742,11 @@ async fn run_ctx(
             }
         } else if let Some(ms) = tok.strip_prefix('z') {
             tokio::time::sleep(Duration::from_millis(ms.parse().expect("z"))).await;
+        } else if let Some(n) = tok.strip_prefix('P') {
+            pad = n.parse().expect("P");
         } else if let Some(id) = tok.strip_prefix('s') {
             let id: u64 = id.parse().expect("id");
-            let (ctx, r) = new_ctx(id);
+            let (ctx, r) = new_ctx(id, pad);
             receivers.push((id, r));
             if let Some(g) = group.as_ref() {
                 let node = counter % nconn;
@@ -737,7 +760,7 @@ async fn run_ctx(
             let ids: Vec<u64> = ids.split(',').map(|x| x.parse().expect("id")).collect();
             let mut ctxs = vec![];
             for id in ids.iter() {
-                let (ctx, r) = new_ctx(*id);
+                let (ctx, r) = new_ctx(*id, pad);
                 receivers.push((*id, r));
                 ctxs.push(ctx);
             }
@@ -804,6 +827,7 @@ async fn run_session(
     let (mut crd, mut cwr) = client.split();
     let mut ids: Vec<u64> = vec![];
     let mut frag = 0usize;
+    let mut pad = 0usize;
     let mut pendingbuf: Vec<u8> = vec![];
     let writer = async {
         for tok in script.iter() {
@@ -820,11 +844,24 @@ async fn run_session(
                 tokio::time::sleep(Duration::from_millis(ms.parse().expect("z"))).await;
             } else if let Some(n) = tok.strip_prefix('F') {
                 frag = n.parse().expect("F");
+            } else if let Some(n) = tok.strip_prefix('P') {
+                pad = n.parse().expect("P");
             } else if let Some(id) = tok.strip_prefix('s') {
                 let id: u64 = id.parse().expect("id");
                 ids.push(id);
                 let idb = id.to_string();
-                let req = format!("*2\r\n$4\r\nECHO\r\n${}\r\n{}\r\n", idb.len(), idb).into_bytes();
+                let req = if pad == 0 {
+                    format!("*2\r\n$4\r\nECHO\r\n${}\r\n{}\r\n", idb.len(), idb).into_bytes()
+                } else {
+                    format!(
+                        "*3\r\n$4\r\nECHO\r\n${}\r\n{}\r\n${}\r\n{}\r\n",
+                        idb.len(),
+                        idb,
+                        pad,
+                        "p".repeat(pad)
+                    )
+                    .into_bytes()
+                };
                 pendingbuf.extend_from_slice(&req);
                 if frag > 0 {
                     // write all complete fragments; the remainder joins the next request
@@ -918,7 +955,7 @@ fn run_fan(toks: &[&str]) -> String {
         let mut ctxs = vec![];
         let mut receivers = vec![];
         for id in ids.iter() {
-            let (ctx, r) = new_ctx(*id);
+            let (ctx, r) = new_ctx(*id, 0);
             ctxs.push(ctx);
             receivers.push((*id, r));
         }
